@@ -16,12 +16,14 @@ structure Frame (s s' : State) : Prop where
   socks : s'.socks = s.socks
   aevents : s'.aevents = s.aevents
   dstor : s'.dstor = s.dstor
+  dlogger : s'.dlogger = s.dlogger
 
-theorem Frame.rfl' (s : State) : Frame s s := ⟨rfl, rfl, rfl, rfl, rfl, rfl, rfl⟩
+theorem Frame.rfl' (s : State) : Frame s s := ⟨rfl, rfl, rfl, rfl, rfl, rfl, rfl, rfl⟩
 
 theorem Frame.trans {a b c : State} (h1 : Frame a b) (h2 : Frame b c) : Frame a c :=
   ⟨h2.raw.trans h1.raw, h2.rawJSON.trans h1.rawJSON, h2.cur.trans h1.cur, h2.next.trans h1.next,
-   h2.socks.trans h1.socks, h2.aevents.trans h1.aevents, h2.dstor.trans h1.dstor⟩
+   h2.socks.trans h1.socks, h2.aevents.trans h1.aevents, h2.dstor.trans h1.dstor,
+   h2.dlogger.trans h1.dlogger⟩
 
 /-- like `Frame`, but the process-wide default storage may change (provisionContext, Validate) -/
 structure FrameX (s s' : State) : Prop where
@@ -41,15 +43,15 @@ theorem FrameX.trans {a b c : State} (h1 : FrameX a b) (h2 : FrameX b c) : Frame
 theorem Frame.toX {s s' : State} (h : Frame s s') : FrameX s s' :=
   ⟨h.raw, h.rawJSON, h.cur, h.next, h.socks, h.aevents⟩
 
-theorem frame_ev (s : State) (es : List Ev) : Frame s (ev s es) := ⟨rfl, rfl, rfl, rfl, rfl, rfl, rfl⟩
+theorem frame_ev (s : State) (es : List Ev) : Frame s (ev s es) := ⟨rfl, rfl, rfl, rfl, rfl, rfl, rfl, rfl⟩
 
-theorem frame_alloc (s : State) : Frame s (alloc s) := ⟨rfl, rfl, rfl, rfl, rfl, rfl, rfl⟩
+theorem frame_alloc (s : State) : Frame s (alloc s) := ⟨rfl, rfl, rfl, rfl, rfl, rfl, rfl, rfl⟩
 
 theorem loadModAt_frame (i : Inst) (m : Mod) (s : State) (live : List Live) :
     Frame s (loadModAt i m s live).1 := by
   unfold loadModAt
   repeat' split
-  all_goals first | exact Frame.rfl' s | exact ⟨rfl, rfl, rfl, rfl, rfl, rfl, rfl⟩
+  all_goals first | exact Frame.rfl' s | exact ⟨rfl, rfl, rfl, rfl, rfl, rfl, rfl, rfl⟩
 
 theorem loadMod_frame (cid app idx : Nat) (m : Mod) (s : State) (live : List Live) :
     Frame s (loadMod cid app idx m s live).1 := by
@@ -111,7 +113,7 @@ theorem loadApps_frame (cid : Nat) : ∀ (as : List App) (s : State) (live : Lis
     | some r => exact h
 
 theorem openWriter_frame (k : Nat) (s : State) : Frame s (openWriter k s) := by
-  unfold openWriter; split <;> exact ⟨rfl, rfl, rfl, rfl, rfl, rfl, rfl⟩
+  unfold openWriter; split <;> exact ⟨rfl, rfl, rfl, rfl, rfl, rfl, rfl, rfl⟩
 
 theorem openLog_frame (cid idx : Nat) (m : Mod) (s : State) (live : List Live) (wk : List Nat) :
     Frame s (openLog cid idx m s live wk).1 := by
@@ -138,19 +140,30 @@ theorem openLogsFrom_frame (cid : Nat) : ∀ (ms : List Mod) (idx : Nat) (s : St
     | none => exact h.trans (openLogsFrom_frame cid ms (idx + 1) s' live' wk')
     | some r => exact h
 
-theorem openLogs_frame (cid : Nat) (logs : List Mod) (s : State) : Frame s (openLogs cid logs s).1 :=
-  ((frame_ev _ _).trans (openWriter_frame _ _)).trans (openLogsFrom_frame cid logs 0 _ _ _)
+theorem openLogs_frame (cid : Nat) (logs : List Mod) (s : State) : FrameX s (openLogs cid logs s).1 := by
+  have h1 : Frame s (openWriter 0 (ev s [.cbReg cid])) := (frame_ev _ _).trans (openWriter_frame _ _)
+  have h2 : FrameX (openWriter 0 (ev s [.cbReg cid]))
+      { openWriter 0 (ev s [.cbReg cid]) with dlogger := cid + 1 } := ⟨rfl, rfl, rfl, rfl, rfl, rfl⟩
+  exact (h1.toX.trans h2).trans (openLogsFrom_frame cid logs 0 _ _ _).toX
+
+/-- openLogs makes this context's default log the process default logger, and leaves the default
+    storage alone -/
+theorem openLogs_dlogger (cid : Nat) (logs : List Mod) (s : State) :
+    (openLogs cid logs s).1.dlogger = cid + 1 ∧ (openLogs cid logs s).1.dstor = s.dstor := by
+  have h := openLogsFrom_frame cid logs 0 { openWriter 0 (ev s [.cbReg cid]) with dlogger := cid + 1 } [] [0]
+  have h1 : Frame s (openWriter 0 (ev s [.cbReg cid])) := (frame_ev _ _).trans (openWriter_frame _ _)
+  exact ⟨h.dlogger, h.dstor.trans h1.dstor⟩
 
 theorem closeLogs_frame : ∀ (ks : List Nat) (s : State), Frame s (closeLogs ks s)
   | [], s => Frame.rfl' s
   | k :: ks, s => by
     unfold closeLogs
     split
-    · refine Frame.trans ?_ (closeLogs_frame ks _); exact ⟨rfl, rfl, rfl, rfl, rfl, rfl, rfl⟩
-    · refine Frame.trans ?_ (closeLogs_frame ks _); exact ⟨rfl, rfl, rfl, rfl, rfl, rfl, rfl⟩
+    · refine Frame.trans ?_ (closeLogs_frame ks _); exact ⟨rfl, rfl, rfl, rfl, rfl, rfl, rfl, rfl⟩
+    · refine Frame.trans ?_ (closeLogs_frame ks _); exact ⟨rfl, rfl, rfl, rfl, rfl, rfl, rfl, rfl⟩
 
 theorem cleanupOne_frame (l : Live) (s : State) : Frame s (cleanupOne l s) := by
-  unfold cleanupOne; split <;> exact ⟨rfl, rfl, rfl, rfl, rfl, rfl, rfl⟩
+  unfold cleanupOne; split <;> exact ⟨rfl, rfl, rfl, rfl, rfl, rfl, rfl, rfl⟩
 
 theorem cleanupAll_frame : ∀ (ls : List Live) (s : State), Frame s (cleanupAll ls s)
   | [], s => Frame.rfl' s
@@ -195,7 +208,7 @@ theorem restoreStorage_socks (s : State) : (restoreStorage s).socks = s.socks :=
 theorem provisionContext_frame (cid : Nat) (c : Cfg) (pp : List Nat) (s : State) :
     FrameX s (provisionContext cid c pp s).1 := by
   unfold provisionContext
-  have h1 := (openLogs_frame cid c.logs s).toX
+  have h1 := openLogs_frame cid c.logs s
   generalize openLogs cid c.logs s = r1 at h1
   obtain ⟨s1, live1, wk, o1⟩ := r1
   cases o1 with
@@ -647,9 +660,9 @@ theorem setStorage_err (cid : Nat) (m : Mod) (s : State) (live : List Live) (r :
 theorem provisionContext_err (cid : Nat) (c : Cfg) (pp : List Nat) (s : State) (r : Res)
     (h : (provisionContext cid c pp s).2.2 = some r) : r.accepted = false := by
   unfold provisionContext at h
-  have h1 := openLogsFrom_err cid c.logs 0 (openWriter 0 (ev s [.cbReg cid])) [] [0]
+  have h1 := openLogsFrom_err cid c.logs 0 { openWriter 0 (ev s [.cbReg cid]) with dlogger := cid + 1 } [] [0]
   unfold openLogs at h
-  generalize openLogsFrom cid 0 c.logs (openWriter 0 (ev s [.cbReg cid])) [] [0] = q1 at h h1
+  generalize openLogsFrom cid 0 c.logs { openWriter 0 (ev s [.cbReg cid]) with dlogger := cid + 1 } [] [0] = q1 at h h1
   obtain ⟨s1, live1, wk, o1⟩ := q1
   cases o1 with
   | some r' => simp at h; exact h1 r (by simp [h])
@@ -1477,5 +1490,156 @@ theorem validate_dstor (c : Cfg) (e : Env) (s : State) : (validate c e s).1.dsto
     subst hctx
     show (restoreStorage _).dstor = _
     rw [restoreStorage_dstor, (cancel_frame _ _ _ _ _).cur, hf.cur]
+
+/-! ### the process-wide default logger (caddy.Log()) -/
+
+theorem setStorage_dlogger (cid : Nat) (m : Mod) (s : State) (live : List Live) :
+    (setStorage cid m s live).1.dlogger = s.dlogger := by
+  unfold setStorage
+  split
+  · rfl
+  · split
+    · rfl
+    · have h := (frame_alloc s).trans (loadStorAt_frame ⟨s.nseq, cid, 102, 0⟩ m (alloc s) live)
+      generalize loadStorAt ⟨s.nseq, cid, 102, 0⟩ m (alloc s) live = r at h
+      obtain ⟨s', live', o⟩ := r
+      cases o <;> exact h.dlogger
+
+theorem restoreStorage_dlogger (s : State) : (restoreStorage s).dlogger = s.dlogger := by
+  unfold restoreStorage; split <;> rfl
+
+/-- provisionContext leaves the process default logger at ITS OWN context's default log, whether
+    it succeeds or fails: openLogs installs it first, nothing puts the previous one back -/
+theorem provisionContext_dlogger (cid : Nat) (c : Cfg) (pp : List Nat) (s : State) :
+    (provisionContext cid c pp s).1.dlogger = cid + 1 := by
+  unfold provisionContext
+  have h1 := (openLogs_dlogger cid c.logs s).1
+  generalize openLogs cid c.logs s = r1 at h1
+  obtain ⟨s1, live1, wk, o1⟩ := r1
+  cases o1 with
+  | some r =>
+    show (restoreStorage _).dlogger = _
+    rw [restoreStorage_dlogger, (cancel_frame _ _ _ _ _).dlogger]; exact h1
+  | none =>
+    dsimp only
+    have h1' := setStorage_dlogger cid c.stor s1 live1
+    generalize setStorage cid c.stor s1 live1 = r1' at h1'
+    obtain ⟨s1', live1', o1'⟩ := r1'
+    cases o1' with
+    | some r =>
+      show (restoreStorage _).dlogger = _
+      rw [restoreStorage_dlogger, (cancel_frame _ _ _ _ _).dlogger, h1']; exact h1
+    | none =>
+      dsimp only
+      have h2 := (loadApps_frame cid (order pp c.apps) s1' live1').dlogger
+      generalize loadApps cid (order pp c.apps) s1' live1' = r2 at h2
+      obtain ⟨s2, live2, o2⟩ := r2
+      cases o2 with
+      | some r =>
+        show (restoreStorage _).dlogger = _
+        rw [restoreStorage_dlogger, (cancel_frame _ _ _ _ _).dlogger, h2, h1']; exact h1
+      | none => show s2.dlogger = _; rw [h2, h1']; exact h1
+
+theorem bindAll_dlogger (cid : Nat) (a : App) (blocked l : List Nat) (s : State) :
+    (bindAll cid a blocked l s).1.dlogger = s.dlogger := by
+  obtain ⟨pre, suf, _, h2, _, _⟩ := bindAll_spec cid a blocked l s
+  rw [h2]
+
+theorem startApp_dlogger (cid : Nat) (blocked : List Nat) (a : App) (s : State) :
+    (startApp cid blocked a s).1.dlogger = s.dlogger := by
+  unfold startApp
+  split
+  · have h := bindAll_dlogger cid a blocked a.listen s
+    generalize bindAll cid a blocked a.listen s = r at h
+    obtain ⟨s', b⟩ := r
+    cases b with
+    | true => dsimp only; split <;> exact h
+    | false => exact h
+  · split
+    · rfl
+    · have h := bindAll_dlogger cid a blocked a.listen (evA s [.start cid a.name])
+      generalize bindAll cid a blocked a.listen (evA s [.start cid a.name]) = r at h
+      obtain ⟨s', b⟩ := r
+      cases b <;> exact h
+
+theorem stopApps_dlogger (cid : Nat) : ∀ (as : List App) (s : State), (stopApps cid as s).dlogger = s.dlogger
+  | [], _ => rfl
+  | a :: as, s => by
+    unfold stopApps
+    rw [stopApps_dlogger cid as]
+    unfold stopApp; split <;> rfl
+
+theorem startApps_dlogger (cid : Nat) (blocked : List Nat) : ∀ (rest started : List App) (s : State),
+    (startApps cid blocked started rest s).1.dlogger = s.dlogger
+  | [], _, _ => rfl
+  | a :: rest, started, s => by
+    unfold startApps
+    have h := startApp_dlogger cid blocked a s
+    generalize startApp cid blocked a s = r at h
+    obtain ⟨s', b⟩ := r
+    cases b with
+    | true => dsimp only; rw [startApps_dlogger cid blocked rest, h]
+    | false => dsimp only; rw [stopApps_dlogger, h]
+
+theorem unsyncedStop_dlogger (c : Option Ctx) (s : State) : (unsyncedStop c s).dlogger = s.dlogger := by
+  unfold unsyncedStop
+  cases c with
+  | none => rfl
+  | some ctx => dsimp only; rw [(cancel_frame _ _ _ _ _).dlogger, stopApps_dlogger]
+
+/-- run leaves the process default logger at the default log of the context it built — accepted
+    or rejected, wherever it failed -/
+theorem run_dlogger (cid : Nat) (c : Cfg) (e : Env) (s : State) : (run cid c e s).1.dlogger = cid + 1 := by
+  unfold run
+  have hd := provisionContext_dlogger cid c e.pp s
+  generalize provisionContext cid c e.pp s = r1 at hd
+  obtain ⟨s1, o1, e1⟩ := r1
+  simp only at hd
+  cases e1 with
+  | some r => exact hd
+  | none =>
+    cases o1 with
+    | none => exact hd
+    | some ctx =>
+      dsimp only
+      by_cases hadm : e.adm = 2
+      · simp only [hadm, if_true]
+        show (restoreStorage _).dlogger = _
+        rw [restoreStorage_dlogger, (cancel_frame _ _ _ _ _).dlogger]; exact hd
+      simp only [hadm, if_false]
+      have hs := startApps_dlogger cid e.blocked (order e.ps ctx.apps) [] s1
+      generalize startApps cid e.blocked [] (order e.ps ctx.apps) s1 = r2 at hs
+      obtain ⟨s2, b⟩ := r2
+      simp only at hs
+      cases b with
+      | false =>
+        show (restoreStorage _).dlogger = _
+        rw [restoreStorage_dlogger, (cancel_frame _ _ _ _ _).dlogger, hs]; exact hd
+      | true =>
+        dsimp only
+        have h3 := (finishSettingUp_spec ctx e.post s2).1.dlogger
+        generalize finishSettingUp ctx e.post s2 = r3 at h3
+        obtain ⟨s3, ctx', b3⟩ := r3
+        simp only at h3
+        cases b3 with
+        | false =>
+          show (restoreStorage _).dlogger = _
+          rw [restoreStorage_dlogger, unsyncedStop_dlogger, h3, hs]; exact hd
+        | true => show s3.dlogger = _; rw [h3, hs]; exact hd
+
+theorem validate_dlogger (c : Cfg) (e : Env) (s : State) : (validate c e s).1.dlogger = s.next + 1 := by
+  unfold validate
+  have hd := provisionContext_dlogger s.next c e.pp s
+  generalize provisionContext s.next c e.pp s = q at hd
+  obtain ⟨s1, o, r⟩ := q
+  simp only at hd
+  cases r with
+  | some r => exact hd
+  | none =>
+    cases o with
+    | none => exact hd
+    | some ctx =>
+      show (restoreStorage _).dlogger = _
+      rw [restoreStorage_dlogger, (cancel_frame _ _ _ _ _).dlogger]; exact hd
 
 end CaddyModel.C01
